@@ -164,6 +164,13 @@ def run(ctx):
     def guarded_pushes(bb):
         """loop form: every Vec::push of the body sits under the true edge of a test of match_filter's result"""
         pushes = mu.calls(bb, r"^std::vec::Vec::<T, A>::push$")
+
+        def pushes_record(t0):
+            a1 = t0["args"][1]
+            ts = bb.ty(a1["pl"]["t"])["s"] if a1.get("o") in ("copy", "move") else ""
+            return ts.startswith("&") and "ResourceRecord" in ts
+        # (a push of the per-domain vector of accepted records into the result is not a read of the store)
+        pushes = [(pbi, pt) for pbi, pt in pushes if pushes_record(pt)]
         mfs = mu.calls(bb, r"DomainResourceFilter::match_filter$")
         if not pushes or not mfs:
             return False
